@@ -1537,6 +1537,11 @@ cdef class NNPS(NNPSBase):
         cdef double lx, ly, lz, domain_size
 
         for pa_wrapper in pa_wrappers:
+            # an empty array has no extent (the min/max of an empty carray
+            # are reported as 0, which would pull the origin into the bounds)
+            if pa_wrapper.get_number_of_particles() == 0:
+                continue
+
             x = pa_wrapper.x
             y = pa_wrapper.y
             z = pa_wrapper.z
@@ -1553,6 +1558,11 @@ cdef class NNPS(NNPSBase):
             xmin = fmin(x.minimum, xmin)
             ymin = fmin(y.minimum, ymin)
             zmin = fmin(z.minimum, zmin)
+
+        if xmax < xmin:
+            # no particles at all
+            xmin = ymin = zmin = 0.0
+            xmax = ymax = zmax = 0.0
 
         # Add a small offset to the limits.
         lx, ly, lz = xmax - xmin, ymax - ymin, zmax - zmin
